@@ -30,6 +30,7 @@ func init() {
 	sim.RegisterKind("evenport", "C19")
 	sim.RegisterKind("family-default", "C19")
 	sim.RegisterKind("relay-unreachable", "C19")
+	sim.RegisterKind("request-unanswered", "C19")
 	sim.RegisterKind("relay-shared", "C19", "C20")
 	sim.RegisterKind("lifetime-not-in-force", "C19", "C06")
 }
@@ -168,6 +169,13 @@ func (x *c19) errorPath(c *sim.RawClient) {
 	}
 	x.rec.FP("allocate-error/%s/%d", kind, code)
 	x.rec.Tracef("%s Allocate error path %s -> %d", c.Name, kind, code)
+	if code == -1 {
+		// the simulated network loses nothing: the server itself stayed silent on an authenticated,
+		// well-formed request - there is no response whose correlation could be judged
+		x.rec.Violate("request-unanswered", "allocate/"+kind, "%s: authenticated Allocate (%s) was never answered", c.Name, kind)
+
+		return
+	}
 	if code == 0 {
 		if kind == "lifetime0" {
 			// outcome-agnostic (the statement does not fix it): adopt it
@@ -378,6 +386,9 @@ func (x *c19) evenPort(a, b *sim.RawClient) {
 	r := x.m.AllocateRaw(a, sim.AllocOpts{EvenPort: &t}, rawA, tidA)
 	if r == nil || r.Class != wire.ClassSuccess {
 		x.rec.FP("evenport/failed/%d", codeOfMsg(r))
+		if r == nil {
+			x.rec.Violate("request-unanswered", "allocate/even-port", "%s: authenticated EVEN-PORT Allocate was never answered", a.Name)
+		}
 
 		return
 	}
